@@ -41,8 +41,9 @@ var corpus = [][]string{
 	{"bw 1 0 c", "start", "sdw", "go run", "join", "isrunning", "isstopped"},
 	{"bw 1 0 c", "bw 2 3 g", "sdw", "go run", "join", "isrunning", "workers"},
 	// the package-level wrappers around the default daemon (first case of the first child process)
-	{"mode default", "bw 1 5 g", "bw 2 - c", "bw 3 -3,9 s", "bw 4 5 h", "ctxstopped", "start", "workers", "waitstarted 1", "bw 5 2 c", "sd", "waitseen 1",
-		"go sdw", "go run", "sleep 20", "workers", "kick 1", "join", "isrunning", "isstopped", "ctxstopped", "bw 6 0 c", "start"},
+	{"mode default", "bw 1 5 g", "bw 2 - c", "bw 3 -3,9 s", "bw 4 5 h", "ctxstopped", "start", "workers", "waitstarted 1", "bw 5 2 c", "bw 7 9 a@1", "bw 8 -7 q", "ctxflag",
+		"waitstarted 27", "workers", "sd", "waitseen 1",
+		"go sdw", "go run", "sleep 20", "workers", "ctxflag", "kick 1", "join", "isrunning", "isstopped", "ctxstopped", "ctxflag", "bw 6 0 c", "start"},
 	// the variadic order: none given = 0, only the first of several counts
 	{"mode seq", "obs on", "bw 1 - c", "bw 2 3,-7 c", "bw 3 -1,9 c", "bw 4 0,5 c", "start", "workers", "bw 5 - c", "bw 6 9,-9 c", "workers", "sdw", "seenlog"},
 	// shapes of daemon_test.go
